@@ -397,18 +397,22 @@ impl FileSpec {
             .filter(|path| {
                 // infix filter must pass
                 let stem = path.file_stem().unwrap(/* CANNOT FAIL*/).to_string_lossy();
-                let infix_start = if fixed_name_part.is_empty() {
-                    0
+                // the infix follows the fixed name part and the underscore that separates them;
+                // a foreign file name can continue with any other character
+                let maybe_infix = if fixed_name_part.is_empty() {
+                    &stem[..]
                 } else {
-                    fixed_name_part.len() + 1 // underscore at the end
+                    let o_rest = stem
+                        .strip_prefix(fixed_name_part.as_str())
+                        .and_then(|rest| rest.strip_prefix('_'));
+                    match o_rest {
+                        Some(rest) => rest,
+                        None => return false,
+                    }
                 };
-                if stem.len() <= infix_start {
+                if maybe_infix.is_empty() {
                     return false;
                 }
-                // a foreign file name can continue with a multi-byte character
-                let Some(maybe_infix) = stem.get(infix_start..) else {
-                    return false;
-                };
                 let end = maybe_infix.find('.').unwrap_or(maybe_infix.len());
                 infix_filter.filter_infix(&maybe_infix[..end])
             })
